@@ -958,6 +958,22 @@ pub fn check_c06(ix: &Ix<'_>, v: &mut Vec<Violation>) {
                     }
                 }
             }
+            // ... and does complete: after the closing phase (everything acknowledged, stalls lifted) no
+            // awaiting send is left pending on a live connection
+            // (not judged when send futures were cancelled: an abandoned exactly-once exchange keeps its
+            // window slot for good, and what then stays parked is C13's business)
+            // (nor with streamed publishes around: while one is in progress every other send, a PUBREL written
+            // by a dropped receipt included, is refused by design, and the exchange it belonged to stays open)
+            let streaming = ix.out.plan.senders.iter().flatten().any(|o| matches!(o, crate::plan::AppOp::StreamQ0 { .. } | crate::plan::AppOp::StreamQ1 { .. }));
+            if ix.healthy_settled(0) && !ix.conn_ended(0) && !streaming && ix.fault("cancel_op") + ix.fault("cancel_unpolled") == 0 {
+                for o in ix.ops.iter().filter(|o| o.done.is_none() && !o.cancelled) {
+                    let kind = o.brief.split([' ', '{', '(']).next().unwrap_or("?");
+                    if matches!(kind, "PubQ1" | "PubQ2" | "Release" | "Subscribe" | "Unsubscribe") {
+                        viol(v, "C06", format!("C06/correct-peer-send-never-completed/{role}/{kind}"), format!("sender {} op {} ({}) started at step {} and never completed although the peer acknowledged everything it received", o.sender, o.op, o.brief, o.start), ix.last_seq);
+                        break;
+                    }
+                }
+            }
         }
     }
 }
@@ -1370,7 +1386,7 @@ pub fn check_c11(ix: &Ix<'_>, v: &mut Vec<Violation>) {
             let certainly_in_use = if holder_kind == ReqKind::Pub2 {
                 // in use until PUBCOMP is produced, i.e. until the protocol handler of this exchange's
                 // PUBREL has completed (a PUBREL is only accepted after the publish handler finished)
-                let neg = matches!(g.exit, Some((_, Outcome::Neg(_) | Outcome::Err)));
+                let neg = matches!(g.exit, Some((_, Outcome::Err))) || matches!(g.exit, Some((_, Outcome::Neg(c))) if c >= 0x80);
                 let handler_done = g.exit.as_ref().map(|x| x.0);
                 let rel_done = ix.gates.iter().any(|r| {
                     r.conn == conn
@@ -1396,6 +1412,17 @@ pub fn check_c11(ix: &Ix<'_>, v: &mut Vec<Violation>) {
                     format!("{} #{pid} ({}) reached a handler while {} #{pid} ({}) was still unacknowledged", kind.name(), reqs[i].tag, holder_kind.name(), reqs[h].tag),
                     sq,
                 );
+                if holder_kind.name().starts_with("PUBLISH") && kind.name().starts_with("PUBLISH") {
+                    // the same fact read as C03: for the peer this is (a retransmission of) the message whose
+                    // exchange is still open - the publish handler ran a second time for it
+                    viol(
+                        v,
+                        "C03",
+                        format!("C03/handled-again-while-exchange-open/{role}/{}-then-{}", holder_kind.name(), kind.name()),
+                        format!("{} #{pid} ({}) was handed to the publish handler although the exchange of {} #{pid} ({}) was not finished: one identifier, two handler runs", kind.name(), reqs[i].tag, holder_kind.name(), reqs[h].tag),
+                        sq,
+                    );
+                }
                 break;
             }
         }
